@@ -816,7 +816,9 @@ pub enum Fin {
     Init(InitOut),
 }
 
-fn finish<DI, M, F: Fn() -> M>(mk_model: F, di: DI, cfg: &Cfg, bd: &Bd, buf: Option<SpiBuf>, light: bool) -> Fin
+/// FULL_RST: also instantiate the full facade over a display WITH a reset pin (built-in models on the recording
+/// transports only, to keep the number of monomorphised facades down)
+fn finish<DI, M, F: Fn() -> M, const FULL_RST: bool>(mk_model: F, di: DI, cfg: &Cfg, bd: &Bd, buf: Option<SpiBuf>, light: bool) -> Fin
 where
     DI: Interface + BusPeek + 'static,
     DI::Error: Classify,
@@ -875,11 +877,16 @@ where
         free(buf);
         return Fin::Init(InitOut { res, retry: None });
     }
-    assert!(!cfg.rst, "the full facade is only instantiated without a reset pin; use init_only");
-    let r: Result<Box<dyn Dut>, ErrClass> = apply_opts(Builder::new(model, di), cfg)
-        .init(&mut delay)
-        .map(|d| Box::new(d) as Box<dyn Dut>)
-        .map_err(|e| classify_init_norst(&e));
+    let r: Result<Box<dyn Dut>, ErrClass> = if cfg.rst {
+        if FULL_RST {
+            let b = if cfg.flags & F_OPTS_FIRST != 0 { apply_opts(Builder::new(model, di), cfg).reset_pin(VPin::new(bd, PIN_RST)) } else { apply_opts(Builder::new(model, di).reset_pin(VPin::new(bd, PIN_RST)), cfg) };
+            b.init(&mut delay).map(|d| Box::new(d) as Box<dyn Dut>).map_err(|e| classify_init(&e))
+        } else {
+            panic!("the full facade with a reset pin is only instantiated for built-in models on recording transports; use init_only");
+        }
+    } else {
+        apply_opts(Builder::new(model, di), cfg).init(&mut delay).map(|d| Box::new(d) as Box<dyn Dut>).map_err(|e| classify_init_norst(&e))
+    };
     Fin::Dut(match r {
         Ok(d) => Ok(Owned::new(d, buf)),
         Err(e) => {
@@ -917,32 +924,32 @@ pub const SPI_POISON: u8 = 0xEE;
 fn build_tiny<const FW: u16, const FH: u16>(cfg: &Cfg, bd: &Bd, c666: bool, light: bool) -> Fin {
     match (cfg.tr, c666) {
         (Transport::RecSerial | Transport::RecPar8, false) => {
-            finish(|| Tiny::<FW, FH, Rgb565>(PhantomData), Any8::Rec(RecSerial::new(bd)), cfg, bd, None, light)
+            finish::<_, _, _, false>(|| Tiny::<FW, FH, Rgb565>(PhantomData), Any8::Rec(RecSerial::new(bd)), cfg, bd, None, light)
         }
         (Transport::RecSerial | Transport::RecPar8, true) => {
-            finish(|| Tiny::<FW, FH, Rgb666>(PhantomData), Any8::Rec(RecSerial::new(bd)), cfg, bd, None, light)
+            finish::<_, _, _, false>(|| Tiny::<FW, FH, Rgb666>(PhantomData), Any8::Rec(RecSerial::new(bd)), cfg, bd, None, light)
         }
         (Transport::Spi { len }, false) => {
             let (b, s) = mk_spi(bd, len as usize, SPI_POISON);
-            finish(|| Tiny::<FW, FH, Rgb565>(PhantomData), Any8::Spi(s), cfg, bd, Some(b), light)
+            finish::<_, _, _, false>(|| Tiny::<FW, FH, Rgb565>(PhantomData), Any8::Spi(s), cfg, bd, Some(b), light)
         }
         (Transport::Spi { len }, true) => {
             let (b, s) = mk_spi(bd, len as usize, SPI_POISON);
-            finish(|| Tiny::<FW, FH, Rgb666>(PhantomData), Any8::Spi(s), cfg, bd, Some(b), light)
+            finish::<_, _, _, false>(|| Tiny::<FW, FH, Rgb666>(PhantomData), Any8::Spi(s), cfg, bd, Some(b), light)
         }
-        (Transport::Par8, false) => finish(|| Tiny::<FW, FH, Rgb565>(PhantomData), Any8::Par(mk_par8(bd)), cfg, bd, None, light),
-        (Transport::Par8, true) => finish(|| Tiny::<FW, FH, Rgb666>(PhantomData), Any8::Par(mk_par8(bd)), cfg, bd, None, light),
+        (Transport::Par8, false) => finish::<_, _, _, false>(|| Tiny::<FW, FH, Rgb565>(PhantomData), Any8::Par(mk_par8(bd)), cfg, bd, None, light),
+        (Transport::Par8, true) => finish::<_, _, _, false>(|| Tiny::<FW, FH, Rgb666>(PhantomData), Any8::Par(mk_par8(bd)), cfg, bd, None, light),
         (Transport::RecPar16, false) => {
-            finish(|| Tiny::<FW, FH, Rgb565>(PhantomData), Any16::Rec(RecPar16::new(bd)), cfg, bd, None, light)
+            finish::<_, _, _, false>(|| Tiny::<FW, FH, Rgb565>(PhantomData), Any16::Rec(RecPar16::new(bd)), cfg, bd, None, light)
         }
-        (Transport::Par16, false) => finish(|| Tiny::<FW, FH, Rgb565>(PhantomData), Any16::Par(mk_par16(bd)), cfg, bd, None, light),
+        (Transport::Par16, false) => finish::<_, _, _, false>(|| Tiny::<FW, FH, Rgb565>(PhantomData), Any16::Par(mk_par16(bd)), cfg, bd, None, light),
         (Transport::RecPar16 | Transport::Par16, true) => panic!("Rgb666 is not available on a 16-bit bus"),
     }
 }
 
 /// Light path for models that are only ever initialised (C09): 8-bit recording interface only.
 fn init_tiny<const FW: u16, const FH: u16>(cfg: &Cfg, bd: &Bd) -> Fin {
-    finish(|| Tiny::<FW, FH, Rgb565>(PhantomData), RecSerial::new(bd), cfg, bd, None, true)
+    finish::<_, _, _, false>(|| Tiny::<FW, FH, Rgb565>(PhantomData), RecSerial::new(bd), cfg, bd, None, true)
 }
 
 macro_rules! tiny_dispatch {
@@ -966,13 +973,13 @@ macro_rules! tiny_init_dispatch {
 macro_rules! builtin_build {
     ($model:expr, $cfg:expr, $bd:expr, $light:expr) => {
         match $cfg.tr {
-            Transport::RecSerial => finish(|| $model, RecSerial::new($bd), $cfg, $bd, None, $light),
-            Transport::RecPar8 => finish(|| $model, RecPar8::new($bd), $cfg, $bd, None, $light),
+            Transport::RecSerial => finish::<_, _, _, true>(|| $model, RecSerial::new($bd), $cfg, $bd, None, $light),
+            Transport::RecPar8 => finish::<_, _, _, true>(|| $model, RecPar8::new($bd), $cfg, $bd, None, $light),
             Transport::Spi { len } => {
                 let (b, s) = mk_spi($bd, len as usize, SPI_POISON);
-                finish(|| $model, s, $cfg, $bd, Some(b), $light)
+                finish::<_, _, _, false>(|| $model, s, $cfg, $bd, Some(b), $light)
             }
-            Transport::Par8 => finish(|| $model, mk_par8($bd), $cfg, $bd, None, $light),
+            Transport::Par8 => finish::<_, _, _, false>(|| $model, mk_par8($bd), $cfg, $bd, None, $light),
             _ => unreachable!(),
         }
     };
@@ -980,8 +987,8 @@ macro_rules! builtin_build {
 macro_rules! builtin_build16 {
     ($model:expr, $cfg:expr, $bd:expr, $light:expr) => {
         match $cfg.tr {
-            Transport::RecPar16 => finish(|| $model, RecPar16::new($bd), $cfg, $bd, None, $light),
-            Transport::Par16 => finish(|| $model, mk_par16($bd), $cfg, $bd, None, $light),
+            Transport::RecPar16 => finish::<_, _, _, false>(|| $model, RecPar16::new($bd), $cfg, $bd, None, $light),
+            Transport::Par16 => finish::<_, _, _, false>(|| $model, mk_par16($bd), $cfg, $bd, None, $light),
             _ => unreachable!(),
         }
     };
@@ -1016,11 +1023,11 @@ fn build_any(cfg: &Cfg, bd: &Bd, light: bool) -> Fin {
             (40, 35), (130, 4), (3, 104), (64, 64),
             (65535, 65535), (65535, 1), (1, 65535), (2, 160), (2, 162), (2, 240), (2, 536), (1, 480)),
         ModelId::Fixed43 => match cfg.tr {
-            Transport::RecSerial | Transport::RecPar8 => finish(|| Fixed43, Any8::Rec(RecSerial::new(bd)), cfg, bd, None, light),
-            Transport::Par8 => finish(|| Fixed43, Any8::Par(mk_par8(bd)), cfg, bd, None, light),
+            Transport::RecSerial | Transport::RecPar8 => finish::<_, _, _, false>(|| Fixed43, Any8::Rec(RecSerial::new(bd)), cfg, bd, None, light),
+            Transport::Par8 => finish::<_, _, _, false>(|| Fixed43, Any8::Par(mk_par8(bd)), cfg, bd, None, light),
             Transport::Spi { len } => {
                 let (b, s) = mk_spi(bd, len as usize, SPI_POISON);
-                finish(|| Fixed43, Any8::Spi(s), cfg, bd, Some(b), light)
+                finish::<_, _, _, false>(|| Fixed43, Any8::Spi(s), cfg, bd, Some(b), light)
             }
             _ => panic!("Fixed43 is only instantiated on 8-bit-word transports"),
         },
